@@ -296,3 +296,5 @@ ASSUMPTIONS = [
 OUTSIDE = ['add_processor/remove_processor from inside a running process()', 'histories longer than the bound',
            'priority objects that are not mathematical integers (bool, int subclasses with odd comparisons)',
            'dispatching disabled while processors are added or removed (C02)']
+
+TECHNIQUE = 'bounded symbolic execution with unbounded symbolic integer priorities: every comparison in desper/bisect.py is a z3 LIA decision; order stated as validity checks'
